@@ -54,13 +54,15 @@ _SIGMA = {
     "id": np.array([[1.0, 0.0], [0.0, 1.0]]),
     "sx": np.array([[0.0, 1.0], [1.0, 0.0]]),
     "half": np.array([[0.5, 0.0], [0.0, -0.5]]),
+    "sy": np.array([[0.0, -1.0j], [1.0j, 0.0]]),
+    "syz": np.array([[0.6, -0.8j], [0.8j, -0.6]]),      # complex eigenvectors, eigenvalues +-1
 }
 
 
 def coupling_matrix(name):
     if isinstance(name, str):
         return _SIGMA[name]
-    return np.asarray(name, dtype=float)
+    return np.asarray(name)
 
 
 def bath_for(coupling, corr):
